@@ -73,10 +73,10 @@ def expand(arg):
     oc = res["outcomes"]
     P = "C09" if mode == "C09" else "C19"
 
-    def V(op, shape, clause, ctype, what, detail=None):
+    def V(op, shape, clause, ctype, what, detail=None, at=None):
         sig = f"{P}/{SHORT[kind]}/{op[0]}/{shape}/{ctype}/{clause}"
         res["viol"].append({"sig": sig, "input": None, "what": what,
-                            "item": {"kind": kind, "hist": hist, "op": op, "mode": mode, "tier": tier},
+                            "item": {"kind": kind, "hist": hist if at is None else at, "op": op, "mode": mode, "tier": tier},
                             "detail": detail})
 
     only = arg.get("only_op")
@@ -144,7 +144,7 @@ def expand(arg):
                         if n2 != npost:
                             if mode == "C09":
                                 V(["views"], "any", "ro-changed:" + "+".join(diff(npost, n2)), ctype,
-                                  f"reading the public views changed the graph after {hs} + {op}")
+                                  f"reading the public views changed the graph after {hs} + {op}", at=hist + [op])
                             bad = True
             if not bad:
                 res["succ"].append((hist + [op], key))
@@ -277,6 +277,13 @@ def deep_walk(arg):
                         if mode == "C09":
                             V(op, shape, inc[0][0], ctype, f"after {op} (step {len(hist)}) view {inc[0][0]} disagrees with the model")
                         stop = True
+                    else:
+                        n2 = norm(snap(g))
+                        if n2 != npost:
+                            if mode == "C09":
+                                V(["views"], "any", "ro-changed:" + "+".join(diff(npost, n2)), ctype,
+                                  f"reading the public views changed the graph at step {len(hist)} of a deep history")
+                            stop = True
             seen.add(canon(post, False))
         elif verdict == "ill":
             if exc is None:
